@@ -28,7 +28,7 @@ class Builtins:
                      "list_eq", "sorted_desc_by", "iter_trace_len", "iter_trace_arg", "iter_trace_method",
                      "iter_trace_kw", "has_key", "perm_of", "strcat", "old_len", "typename", "called", "iter_called",
                      "out_len", "out_method", "out_arg", "out_kw", "call_result", "iter_call_result", "call_count",
-                     "iter_call_count", "dict_values", "dict_get", "dict_keys", "count_char", "dict_separate"}
+                     "iter_call_count", "dict_values", "dict_get", "dict_keys", "count_char", "dict_separate", "last_index_of"}
     type_names = {"ValueError", "KeyError", "IndexError", "TypeError", "Exception", "UnicodeDecodeError",
                   "StopIteration", "RuntimeError", "AttributeError", "OSError", "FileNotFoundError",
                   "NotImplementedError", "RecursionError", "AssertionError", "BaseException", "ZeroDivisionError",
@@ -1604,6 +1604,10 @@ class Builtins:
             ax.append(FA([a, c, k], z3.Implies(k >= 0, f(a, c, k + 1) == f(a, c, k) + z3.If(char_at(a, k) == c, 1, 0)),
                          patterns=[f(a, c, k + 1)]), keys={"STRCNT"})
         return VInt(f(sv.t, ch.t, n))
+
+    def sp_last_index_of(self, st, args, kwargs, node):
+        from . import strsplit
+        return VInt(strsplit.last_index(self, args[0].t, args[1].t))
 
     def sp_dict_separate(self, st, args, kwargs, node):
         a, b = args
